@@ -102,4 +102,256 @@ theorem post_clean (ast : Ecal.Parse.Node) (parent : Option Ecal.Parse.Node) (t 
       have hn : ¬ tk.prefixNl > 1 := by omega
       simp only [hn, if_false]; rw [trimLines_clean t h]
 
+/-! Part 3: one unfolding step of the printer for an operator node -/
+
+open Ecal.Parse in
+/-- names whose nodes PrettyPrint handles in code instead of with a template -/
+def specials : List String :=
+  ["funccall", "sink", "statements", "try", "except", "list", "map", "identifier", "params", "if"]
+
+/-- the text a template writes for the (already parenthesised) child texts `ps` -/
+def piecesText (ps : List Txt) (pieces : List (String ⊕ Nat)) : Txt :=
+  pieces.flatMap fun pc => match pc with
+    | .inl t => s t
+    | .inr k => c ps k
+
+/-- the template only contains literal text and the children 1 … ar (no `.val` / `.qval`) -/
+def piecesOk (ar : Nat) (pieces : List (String ⊕ Nat)) : Bool :=
+  pieces.all fun pc => match pc with
+    | .inl _ => true
+    | .inr k => decide (1 ≤ k) && decide (k ≤ ar) && decide (k ≠ 100)
+
+theorem foldlM_pieces (f : Txt → (String ⊕ Nat) → Except PErr Txt) (ps : List Txt) (ar : Nat)
+    (h1 : ∀ acc t, f acc (.inl t) = .ok (acc ++ s t))
+    (h2 : ∀ acc k, 1 ≤ k → k ≠ 100 → f acc (.inr k) = .ok (acc ++ c ps k)) :
+    ∀ (pieces : List (String ⊕ Nat)) (acc : Txt), piecesOk ar pieces = true →
+      List.foldlM f acc pieces = .ok (acc ++ piecesText ps pieces)
+  | [], acc, _ => by simp [piecesText, List.foldlM, pure, Except.pure]
+  | pc :: rest, acc, h => by
+    simp only [piecesOk, List.all_cons, Bool.and_eq_true] at h
+    have ih := foldlM_pieces f ps ar h1 h2 rest
+    cases pc with
+    | inl t =>
+      simp only [List.foldlM, bind, Except.bind, h1]
+      rw [ih _ (by simpa [piecesOk] using h.2)]
+      simp [piecesText, List.append_assoc]
+    | inr k =>
+      have hk := h.1
+      simp only [Bool.and_eq_true, decide_eq_true_eq] at hk
+      simp only [List.foldlM, bind, Except.bind, h2 acc k hk.1.1 hk.2]
+      rw [ih _ (by simpa [piecesOk] using h.2)]
+      simp [piecesText, List.append_assoc]
+
+open Ecal.Parse in
+/-- **One step of `visit` for a node with two children** whose name has a template: if the children print to `tl`, `tr`,
+    the node prints to its template filled with the children's texts — each parenthesised iff `bracketRule` says so —
+    run through ppPostProcessing. (`q` = the quoting function of string tokens; no string token is involved here.) -/
+theorem visit_bin (q : Txt → Txt) (fuel : Nat) (name : String) (tok : Option Lex.Tok) (binding : Nat) (nud : Nud) (led : Led)
+    (L R : Node) (parent : Option Node) (tl tr : Txt) (pieces : List (String ⊕ Nat))
+    (hL : visitFQ q fuel (some L) (some (Node.mk name tok binding nud led [some L, some R] [])) = .ok tl)
+    (hR : visitFQ q fuel (some R) (some (Node.mk name tok binding nud led [some L, some R] [])) = .ok tr)
+    (hsp : ∀ x ∈ specials, name ≠ x) (htm : tmpl (name ++ "_" ++ toString 2) = some pieces)
+    (hpo : piecesOk 2 pieces = true) :
+    visitFQ q (fuel+1) (some (Node.mk name tok binding nud led [some L, some R] [])) parent =
+      ppPostProcessing (Node.mk name tok binding nud led [some L, some R] []) parent
+        (piecesText
+          [if bracketRule (Node.mk name tok binding nud led [some L, some R] []) L 0 = true then s "(" ++ tl ++ s ")" else tl,
+           if bracketRule (Node.mk name tok binding nud led [some L, some R] []) R 1 = true then s "(" ++ tr ++ s ")" else tr]
+          pieces) := by
+  rw [visitFQ]
+  dsimp only [Node.children, Node.name, List.length_cons, List.length_nil]
+  simp only [List.zipIdx, List.mapM_cons, List.mapM_nil, bind, Except.bind, pure, Except.pure, hL, hR]
+  split
+  all_goals first
+    | exact absurd rfl (hsp "funccall" (by simp [specials]))
+    | exact absurd rfl (hsp "sink" (by simp [specials]))
+    | exact absurd rfl (hsp "statements" (by simp [specials]))
+    | exact absurd rfl (hsp "try" (by simp [specials]))
+    | exact absurd rfl (hsp "except" (by simp [specials]))
+    | exact absurd rfl (hsp "list" (by simp [specials]))
+    | exact absurd rfl (hsp "map" (by simp [specials]))
+    | exact absurd rfl (hsp "identifier" (by simp [specials]))
+    | exact absurd rfl (hsp "params" (by simp [specials]))
+    | exact absurd rfl (hsp "if" (by simp [specials]))
+    | skip
+  have hk : (if [some L, some R].length > 0 then name ++ "_" ++ toString [some L, some R].length else name) =
+      name ++ "_" ++ toString 2 := by simp
+  rw [hk, htm]
+  dsimp only
+  rw [foldlM_pieces _
+    [if bracketRule (Node.mk name tok binding nud led [some L, some R] []) L 0 = true then s "(" ++ tl ++ s ")" else tl,
+     if bracketRule (Node.mk name tok binding nud led [some L, some R] []) R (0 + 1) = true then s "(" ++ tr ++ s ")" else tr]
+    2 (fun acc t => rfl) (fun acc k hk1 hk100 => by
+      split
+      · rename_i h; cases h
+      · rename_i h; injection h with h; omega
+      · rename_i h; injection h with h; exact absurd h hk100
+      · rename_i h; injection h with h; subst h; rfl) pieces [] hpo]
+  simp
+
+open Ecal.Parse in
+/-- **One step of `visit` for a node with one child** whose name has a template (prefix operators, `let`, `return x`,
+    sink attributes …). -/
+theorem visit_pre (q : Txt → Txt) (fuel : Nat) (name : String) (tok : Option Lex.Tok) (binding : Nat) (nud : Nud) (led : Led)
+    (X : Node) (parent : Option Node) (tx : Txt) (pieces : List (String ⊕ Nat))
+    (hX : visitFQ q fuel (some X) (some (Node.mk name tok binding nud led [some X] [])) = .ok tx)
+    (hsp : ∀ x ∈ specials, name ≠ x) (htm : tmpl (name ++ "_" ++ toString 1) = some pieces)
+    (hpo : piecesOk 1 pieces = true) :
+    visitFQ q (fuel+1) (some (Node.mk name tok binding nud led [some X] [])) parent =
+      ppPostProcessing (Node.mk name tok binding nud led [some X] []) parent
+        (piecesText
+          [if bracketRule (Node.mk name tok binding nud led [some X] []) X 0 = true then s "(" ++ tx ++ s ")" else tx]
+          pieces) := by
+  rw [visitFQ]
+  dsimp only [Node.children, Node.name, List.length_cons, List.length_nil]
+  simp only [List.zipIdx, List.mapM_cons, List.mapM_nil, bind, Except.bind, pure, Except.pure, hX]
+  split
+  all_goals first
+    | exact absurd rfl (hsp "funccall" (by simp [specials]))
+    | exact absurd rfl (hsp "sink" (by simp [specials]))
+    | exact absurd rfl (hsp "statements" (by simp [specials]))
+    | exact absurd rfl (hsp "try" (by simp [specials]))
+    | exact absurd rfl (hsp "except" (by simp [specials]))
+    | exact absurd rfl (hsp "list" (by simp [specials]))
+    | exact absurd rfl (hsp "map" (by simp [specials]))
+    | exact absurd rfl (hsp "identifier" (by simp [specials]))
+    | exact absurd rfl (hsp "params" (by simp [specials]))
+    | exact absurd rfl (hsp "if" (by simp [specials]))
+    | skip
+  have hk : (if [some X].length > 0 then name ++ "_" ++ toString [some X].length else name) =
+      name ++ "_" ++ toString 1 := by simp
+  rw [hk, htm]
+  dsimp only
+  rw [foldlM_pieces _
+    [if bracketRule (Node.mk name tok binding nud led [some X] []) X 0 = true then s "(" ++ tx ++ s ")" else tx]
+    1 (fun acc t => rfl) (fun acc k hk1 hk100 => by
+      split
+      · rename_i h; cases h
+      · rename_i h; injection h with h; omega
+      · rename_i h; injection h with h; exact absurd h hk100
+      · rename_i h; injection h with h; subst h; rfl) pieces [] hpo]
+  simp
+
+/-- name-side hypotheses of `visit_bin` / `visit_pre` hold for an operator name such as `plus` (the template-side
+    hypotheses `htm`, `hpo` are about the regenerated table, whose lookup the kernel cannot evaluate by `decide`; the
+    driver evaluates the same `tmpl` on every case) -/
+example : (∀ x ∈ specials, "plus" ≠ x) ∧ "plus" ++ "_" ++ toString 2 = "plus_2" := by decide
+
+/-! Part 4: on the nodes of operator trees the bracket rule the printer model runs is the rule `realBr` of the
+expression-level model -/
+
+open Ecal.Parse in
+/-- the node tree of an operator tree (atoms given): names, bindings and left denotations of the real table -/
+def ofExpr (atomN : Nat → Node) : Expr → Node
+  | .atom n => atomN n
+  | .bin k l r =>
+    Node.mk (((infixOps[k]?).map (·.1)).getD "") none (realPowers.bp k) .none .infix
+      [some (ofExpr atomN l), some (ofExpr atomN r)] []
+  | .pre k x =>
+    Node.mk (((prefixOps[k]?).map (·.1)).getD "") none (realPowers.pb k) .none
+      (if ((prefixOps[k]?).map (·.2.2)).getD false then .infix else .none) [some (ofExpr atomN x)] []
+
+/-- length of the left spine -/
+def spine : Expr → Nat
+  | .bin _ l _ => spine l + 1
+  | _ => 0
+
+/-- in the table, the node names `times` / `div` belong to exactly the indices `iTimes` / `iDiv` -/
+theorem times_div_names :
+    ((List.range infixOps.length).all fun k =>
+      (((infixOps[k]?).map (·.1)).getD "" == "times") == decide (k = iTimes) &&
+      (((infixOps[k]?).map (·.1)).getD "" == "div") == decide (k = iDiv)) = true := by decide
+
+open Ecal.Parse in
+/-- **ppIsProductChain on nodes = chainPure on trees** (for the parent `times`): the printer model's `isProductChainF` on
+    the node tree of `c` computes `chainPure` of the expression-level model, given enough fuel for the left spine and
+    operators of the real table. Atoms must not look like infix nodes. -/
+theorem chain_eq (atomN : Nat → Node) (hat : ∀ n, (atomN n).children.length ≠ 2) :
+    ∀ (c : Expr) (f : Nat), spine c < f → headsIn inTable c = true →
+      isProductChainF f (ofExpr atomN c) (realPowers.bp iTimes) =
+        chainPure realPowers realExc iTimes (realPowers.bp iTimes) c := by
+  intro c
+  induction c with
+  | atom n =>
+    intro f hf _
+    cases f with
+    | zero => omega
+    | succ f => simp [isProductChainF, ofExpr, chainPure, hat n]
+  | pre k x _ =>
+    intro f hf _
+    cases f with
+    | zero => omega
+    | succ f => simp [isProductChainF, ofExpr, chainPure, Node.children]
+  | bin k l r ihl _ =>
+    intro f hf hin
+    cases f with
+    | zero => omega
+    | succ f =>
+      simp only [headsIn, Bool.and_eq_true] at hin
+      have hk : k < infixOps.length := by
+        have := hin.1.1
+        simp only [inTable, allHeads, List.contains_eq_mem, List.mem_cons, List.mem_append, List.mem_map, List.mem_range,
+          decide_eq_true_eq] at this
+        rcases this with h | ⟨a, ha, h⟩ | ⟨a, _, h⟩
+        · cases h
+        · injection h with h; omega
+        · cases h
+      have hn := List.all_eq_true.mp times_div_names k (List.mem_range.mpr hk)
+      simp only [Bool.and_eq_true, beq_iff_eq] at hn
+      have ih := ihl f (by simp only [spine] at hf; omega) hin.1.2
+      simp only [isProductChainF, ofExpr, chainPure, Node.children, Node.led, Node.binding, Node.name, List.length_cons,
+        List.length_nil]
+      by_cases hb : realPowers.bp k = realPowers.bp iTimes
+      · simp only [hb, if_true]
+        rw [ih]
+        simp only [realExc, decide_true, Bool.true_and]
+        have h1 : decide (((infixOps[k]?).map (·.1)).getD "" = "times") = decide (k = iTimes) := hn.1
+        have h2 : decide (((infixOps[k]?).map (·.1)).getD "" = "div") = decide (k = iDiv) := hn.2
+        have p1 := decide_eq_decide.mp h1
+        have p2 := decide_eq_decide.mp h2
+        simp [p1, p2]
+      · simp [hb]
+
+/-- what ppNeedsBrackets reads of the node of an operator tree = what the expression-level model reads of its head
+    (atoms must look like identifiers to the rule: `hatom`) -/
+theorem bnOfNode_ofExpr (atomN : Nat → Ecal.Parse.Node) (hatom : ∀ n x, bnOfNode (atomN n) x = bnOf .atom x)
+    (e : Expr) (x : Bool) : bnOfNode (ofExpr atomN e) x = bnOf e.head x := by
+  cases e with
+  | atom n => exact hatom n x
+  | bin k l r =>
+    simp [bnOfNode, ofExpr, bnOf, Expr.head, Ecal.Parse.Node.name, Ecal.Parse.Node.binding, Ecal.Parse.Node.led,
+      Ecal.Parse.Node.children]
+  | pre k y =>
+    cases hb : ((prefixOps[k]?).map (·.2.2)).getD false <;>
+      simp [bnOfNode, ofExpr, bnOf, Expr.head, hb, Ecal.Parse.Node.name, Ecal.Parse.Node.binding, Ecal.Parse.Node.led,
+        Ecal.Parse.Node.children]
+
+/-- **step 3 of the plan: the printer model's `bracketRule` on the nodes of an operator tree is the expression-level
+    model's `realBr` on the heads**, with the purity flag the printer computes (`isProductChain`); needs the extracted
+    rule to be in force (`shapeOk`). Independent of the shape of the extracted rule. -/
+theorem bracketRule_ofExpr (hs : Ecal.Gen.C08.shapeOk = true) (atomN : Nat → Ecal.Parse.Node)
+    (hatom : ∀ n x, bnOfNode (atomN n) x = bnOf .atom x) (p c : Expr) (i : Nat) :
+    bracketRule (ofExpr atomN p) (ofExpr atomN c) i =
+      realBr p.head c.head i (isProductChain (ofExpr atomN c) (ofExpr atomN p).binding) := by
+  simp only [bracketRule, realBr, hs, if_true, needsBracketsGen, genBr, bnOfNode_ofExpr atomN hatom]
+
+open Ecal.Parse in
+/-- under a product, the printer model's decision for an operand is exactly the one `annotW realBr` takes: the flag
+    is `chainPure` (by `chain_eq`) -/
+theorem bracketRule_times (hs : Ecal.Gen.C08.shapeOk = true) (atomN : Nat → Ecal.Parse.Node)
+    (hatom : ∀ n x, bnOfNode (atomN n) x = bnOf .atom x) (hat : ∀ n, (atomN n).children.length ≠ 2)
+    (l r c : Expr) (i : Nat) (hsp : spine c < 100000) (hin : headsIn inTable c = true) :
+    bracketRule (ofExpr atomN (.bin iTimes l r)) (ofExpr atomN c) i =
+      realBr (.bin iTimes) c.head i (chainPure realPowers realExc iTimes (realPowers.bp iTimes) c) := by
+  rw [bracketRule_ofExpr hs atomN hatom]
+  have : (ofExpr atomN (.bin iTimes l r)).binding = realPowers.bp iTimes := rfl
+  rw [this, isProductChain, chain_eq atomN hat c 100000 hsp hin]
+  rfl
+
+/-- the atom hypotheses of `chain_eq` / `bracketRule_ofExpr` / `bracketRule_times` hold for identifier atoms -/
+example :
+    let atomN : Nat → Ecal.Parse.Node := fun _ => Ecal.Parse.Node.mk "identifier" none 0 .none .none [] []
+    (∀ n x, bnOfNode (atomN n) x = bnOf .atom x) ∧ (∀ n, (atomN n).children.length ≠ 2) := by
+  exact ⟨fun n x => rfl, fun n => by simp [Ecal.Parse.Node.children]⟩
+
 end Ecal.C08.TX
